@@ -100,7 +100,17 @@ impl TryFrom<tir::InputQuery> for CanonicalQuery {
                     data_or_bail!(asset.amount, number);
                 }
 
-                Ok::<_, Error>(CanonicalAssets::from(Vec::from(x)))
+                // entries of one class are summed: the total must fit as well
+                x.iter()
+                    .try_fold(CanonicalAssets::empty(), |acc, asset| {
+                        acc.checked_add(CanonicalAssets::from(asset.clone()))
+                    })
+                    .ok_or_else(|| {
+                        Error::ExpectedData(
+                            "amounts without overflow".to_string(),
+                            query.min_amount.clone(),
+                        )
+                    })
             })
             .transpose()?;
 
